@@ -388,12 +388,304 @@ Proof.
       split; apply elem_of_list_In; [|done]. apply elem_of_list_fmap. eauto.
 Qed.
 
-Theorem poracle_holds_of_model self hist : poracle_on self hist (model_prun self hist) = true.
+(** * shared addresses: any choice of GetByHost *)
+Lemma pstep_ch_None s msg : pstep_ch None s msg = pstep s msg.
+Proof. by destruct msg. Qed.
+Lemma hstep_ch_None S msg : hstep_ch None S msg = hstep S msg.
+Proof. by destruct msg. Qed.
+
+Lemma get_by_host_ch_cases ch s a :
+  (get_by_host_ch ch s a = None ∧ ∀ i m, s !! i = Some m → mhost m ≠ a) ∨
+  (∃ i m, get_by_host_ch ch s a = Some m ∧ s !! i = Some m ∧ mhost m = a).
 Proof.
-  unfold poracle_on. destruct (host_injb _) eqn:E; [|done].
-  apply host_injb_spec in E. rewrite model_prun_is_spec by done.
-  apply all2_refl, pobs_eqb_refl.
+  assert ((get_by_host s a = None ∧ ∀ i m, s !! i = Some m → mhost m ≠ a) ∨
+          (∃ i m, get_by_host s a = Some m ∧ s !! i = Some m ∧ mhost m = a)) as Hc.
+  { destruct (get_by_host s a) as [m|] eqn:E.
+    - right. apply get_by_host_Some in E as (i & ? & ?). eauto.
+    - left. split; [done|]. by apply get_by_host_None. }
+  destruct ch as [i|]; [|done]. simpl.
+  destruct (s !! i) as [m|] eqn:Hi; [|done]. case_decide; [|done]. right. eauto.
 Qed.
+
+Lemma get_by_host_ch_valid s a i m :
+  s !! i = Some m → mhost m = a → get_by_host_ch (Some i) s a = Some m.
+Proof. intros Hi Hh. simpl. by rewrite Hi, decide_True. Qed.
+
+(* one report, any choice: nobody at the address — nothing happens; otherwise
+   exactly one member at that address goes and the agent is told the new list *)
+Lemma leave_ch_step ch s a :
+  keyed s →
+  ((∀ i m, s !! i = Some m → mhost m ≠ a) ∧ pstep_ch ch s (LeaveAddr a) = (s, [])) ∨
+  (∃ i m, s !! i = Some m ∧ mhost m = a ∧
+          pstep_ch ch s (LeaveAddr a) = (delete i s, [ToAgent (slice (delete i s))])).
+Proof.
+  intros Hk. cbn [pstep_ch].
+  destruct (get_by_host_ch_cases ch s a) as [[-> Hn]|(i & m & -> & Hi & Hh)]; [by left|right].
+  exists i, m. by rewrite (remove_member_keyed s i).
+Qed.
+
+(* and every such outcome is the step for the choice of that member *)
+Lemma leave_ch_step_chosen s a i m :
+  keyed s → s !! i = Some m → mhost m = a →
+  pstep_ch (Some i) s (LeaveAddr a) = (delete i s, [ToAgent (slice (delete i s))]).
+Proof.
+  intros Hk Hi Hh. cbn [pstep_ch]. rewrite (get_by_host_ch_valid s a i m) by done.
+  by rewrite (remove_member_keyed s i).
+Qed.
+
+Lemma pstep_ch_keyed ch s msg : keyed s → keyed (pstep_ch ch s msg).1.
+Proof.
+  intros Hk. destruct msg as [m from|l|a]; [by apply (pstep_keyed s (Handshake m from))
+                                           |by apply (pstep_keyed s (MembersMsg l))|].
+  destruct (leave_ch_step ch s a Hk) as [[_ ->]|(i & m & _ & _ & ->)]; [done|].
+  cbn [fst]. intros j x [_ H]%lookup_delete_Some. eauto.
+Qed.
+
+Lemma pafter_ch_keyed self hist chs : keyed (pafter_ch self hist chs).
+Proof.
+  unfold pafter_ch. assert (keyed (pinit self)) as Hk by apply keyed_pinit.
+  revert Hk. generalize (pinit self). revert chs.
+  induction hist as [|msg hist IH]; intros chs s Hk; [done|].
+  simpl. apply IH. by apply pstep_ch_keyed.
+Qed.
+
+(** ** k reports for an address with m members behind it *)
+Lemma behind_size_0 a s : size (behind a s) = 0 ↔ ∀ i m, s !! i = Some m → mhost m ≠ a.
+Proof.
+  rewrite map_size_empty_iff. unfold behind. rewrite map_filter_empty_iff. unfold map_Forall.
+  simpl. split; intros H i m Hi; specialize (H i m Hi); naive_solver.
+Qed.
+
+Lemma leave_ch_count ch s a :
+  keyed s →
+  let r := pstep_ch ch s (LeaveAddr a) in
+  size (behind a r.1) = size (behind a s) - 1 ∧ elsewhere a r.1 = elsewhere a s ∧
+  r.1 ⊆ s ∧ keyed r.1 ∧
+  (size (behind a s) = 0 → r = (s, [])) ∧
+  (size (behind a s) ≠ 0 → r.2 = [ToAgent (slice r.1)] ∧ r.1 ≠ s).
+Proof.
+  intros Hk r. pose proof (pstep_ch_keyed ch s (LeaveAddr a) Hk) as Hk'. fold r in Hk'.
+  destruct (leave_ch_step ch s a Hk) as [[Hn Hr]|(i & m & Hi & Hh & Hr)]; subst r; rewrite Hr in *; cbn [fst snd].
+  - apply behind_size_0 in Hn. rewrite Hn. split_and!; try done.
+  - assert (behind a s !! i = Some m) as Hb by by apply map_filter_lookup_Some.
+    assert (size (behind a s) ≠ 0) as Hne.
+    { rewrite map_size_non_empty_iff. intros He. by rewrite He, lookup_empty in Hb. }
+    split_and!; try done.
+    + unfold behind. rewrite map_filter_delete. rewrite map_size_delete_Some by eauto. lia.
+    + unfold elsewhere. rewrite map_filter_delete. apply delete_notin.
+      apply map_filter_lookup_None. right. intros x Hx. simpl. naive_solver.
+    + apply delete_subseteq.
+    + intros Heq. split; [done|]. intros He. assert (delete i s !! i = s !! i) as Hl by by rewrite He.
+      by rewrite lookup_delete, Hi in Hl.
+Qed.
+
+Lemma leaves_ch_keyed s a chs : keyed s → keyed (leaves_ch s a chs).1.
+Proof.
+  revert s. induction chs as [|ch chs IH]; intros s Hk; [done|].
+  cbn [leaves_ch]. cbn zeta. cbn [fst]. apply IH. by apply pstep_ch_keyed.
+Qed.
+
+(* k reports (any choices) for an address with m members behind it: max(m-k,0)
+   of them are left, everybody at another address is untouched, nobody is
+   added; the agent is told exactly at the first min(k,m) reports — those
+   that changed the list *)
+Theorem repeated_reports s a chs :
+  keyed s →
+  let r := leaves_ch s a chs in
+  size (behind a r.1) = size (behind a s) - length chs ∧
+  elsewhere a r.1 = elsewhere a s ∧ r.1 ⊆ s ∧
+  length r.2 = length chs ∧
+  ∀ j outs, r.2 !! j = Some outs →
+    (j < size (behind a s) → ∃ l, outs = [ToAgent l]) ∧ (size (behind a s) ≤ j → outs = []).
+Proof.
+  revert s. induction chs as [|ch chs IH]; intros s Hk.
+  - simpl. split_and!; [lia|done|done|done|]. intros j outs. by rewrite lookup_nil.
+  - cbn [leaves_ch]. cbn zeta.
+    destruct (leave_ch_count ch s a Hk) as (Hsz & Hel & Hsub & Hk' & H0 & Hn0).
+    set (r1 := pstep_ch ch s (LeaveAddr a)) in *.
+    destruct (IH r1.1 Hk') as (IHsz & IHel & IHsub & IHlen & IHouts).
+    cbn [fst snd length]. split_and!.
+    + rewrite IHsz, Hsz. lia.
+    + by rewrite IHel.
+    + by etrans.
+    + by rewrite IHlen.
+    + intros [|j] outs; simpl.
+      * intros [= <-]. split.
+        -- intros Hlt. destruct Hn0 as [-> _]; [lia|eauto].
+        -- intros Hle. assert (size (behind a s) = 0) as Hz by lia. by rewrite (H0 Hz).
+      * intros Hj. destruct (IHouts j outs Hj) as [Ha Hb]. split.
+        -- intros Hlt. apply Ha. lia.
+        -- intros Hle. apply Hb. lia.
+Qed.
+
+(** ** the oracle holds of every model run, whatever GetByHost chooses *)
+Lemma filter_none {A} (P : A → Prop) `{!∀ x, Decision (P x)} (l : list A) :
+  (∀ x, x ∈ l → ¬ P x) → filter P l = [].
+Proof.
+  induction l as [|x l IH]; intros Hl; [done|].
+  rewrite filter_cons_False by (apply Hl; left). apply IH. intros y Hy. apply Hl. by right.
+Qed.
+
+Lemma filter_unique `{EqDecision A} (P : A → Prop) `{!∀ x, Decision (P x)} (l : list A) i :
+  NoDup l → i ∈ l → (∀ x, x ∈ l → P x ↔ x = i) → filter P l = [i].
+Proof.
+  induction l as [|x l IH]; intros Hnd Hi HP; [by apply elem_of_nil in Hi|].
+  apply NoDup_cons in Hnd as [Hx Hnd].
+  destruct (decide (x = i)) as [->|Hne].
+  - rewrite filter_cons_True by (apply HP; [left|done]). f_equal.
+    apply filter_none. intros y Hy HPy. apply HP in HPy; [|by right]. by subst.
+  - rewrite filter_cons_False by (intros HPx; apply HP in HPx; [done|left]).
+    apply IH; [done|set_solver|]. intros y Hy. apply HP. by right.
+Qed.
+
+Lemma elem_of_sids s i : i ∈ sids s ↔ i ∈ dom s.
+Proof.
+  unfold sids, nsort. rewrite <- (elem_of_elements (dom s)).
+  apply elem_of_Permutation_proper, merge_sort_Permutation.
+Qed.
+Lemma NoDup_sids s : NoDup (sids s).
+Proof. unfold sids, nsort. rewrite merge_sort_Permutation. apply NoDup_elements. Qed.
+
+Lemma choice_of_removed s i outs :
+  i ∈ dom s → choice_of (sids s) (out_obs (delete i s) outs) = Some i.
+Proof.
+  intros Hi. unfold choice_of. cbn [out_obs p_list].
+  rewrite (filter_unique _ _ i); [done|apply NoDup_sids|by apply elem_of_sids|].
+  intros j Hj. rewrite elem_of_sids in Hj.
+  rewrite elem_of_sids, dom_delete_L, elem_of_difference, elem_of_singleton. split.
+  - intros Hn. destruct (decide (j = i)); [done|]. exfalso. by apply Hn.
+  - intros -> [_ ?]. done.
+Qed.
+
+Lemma choice_of_unchanged s outs : choice_of (sids s) (out_obs s outs) = None.
+Proof.
+  unfold choice_of. cbn [out_obs p_list]. rewrite filter_none; [done|]. intros j Hj Hn. done.
+Qed.
+
+Lemma hstep_add_obs s msg :
+  keyed s → (∀ a, msg ≠ LeaveAddr a) →
+  hstep (mhost <$> s) msg = (mhost <$> (pstep s msg).1, out_obs (pstep s msg).1 (pstep s msg).2).
+Proof.
+  intros Hk Hm. destruct msg as [m from|l|a]; [| |by destruct (Hm a)]; cbn [hstep pstep fst snd].
+  - rewrite hadd_fmap, hids_fmap. unfold out_obs. cbn [omap list_omap last option_bind mbind].
+    rewrite ids_of_slice by by apply add_members_keyed.
+    rewrite bool_decide_eq_false_2; [done|]. rewrite !elem_of_cons, elem_of_nil. naive_solver.
+  - rewrite hadd_fmap, hids_fmap. unfold out_obs. cbn [omap list_omap last option_bind mbind].
+    rewrite ids_of_slice by by apply add_members_keyed.
+    rewrite bool_decide_eq_false_2; [done|]. rewrite !elem_of_cons, elem_of_nil. naive_solver.
+Qed.
+
+(* the reference, given the choice visible in the model's observation,
+   reproduces that observation *)
+Lemma pstep_ch_obs ch s msg :
+  keyed s →
+  let r := pstep_ch ch s msg in
+  hstep_ch (choice_of (hids (mhost <$> s)) (out_obs r.1 r.2)) (mhost <$> s) msg
+  = (mhost <$> r.1, out_obs r.1 r.2).
+Proof.
+  intros Hk r. rewrite hids_fmap.
+  destruct msg as [m from|l|a].
+  - subst r. cbn [pstep_ch hstep_ch]. by apply hstep_add_obs.
+  - subst r. cbn [pstep_ch hstep_ch]. by apply hstep_add_obs.
+  - destruct (leave_ch_step ch s a Hk) as [[Hn Hr]|(i & m & Hi & Hh & Hr)]; subst r; rewrite Hr; cbn [fst snd].
+    + rewrite choice_of_unchanged. cbn [hstep_ch].
+      assert (filter (λ kv : nat * nat, kv.2 ≠ a) (mhost <$> s) = mhost <$> s) as ->.
+      { apply map_filter_id. intros j h. rewrite lookup_fmap. cbn [snd].
+        destruct (s !! j) as [y|] eqn:Hj; simpl; [|done]. intros [= <-]. eauto. }
+      rewrite decide_True by done. rewrite hids_fmap. unfold out_obs. simpl. done.
+    + rewrite choice_of_removed by (apply elem_of_dom; eauto). cbn [hstep_ch].
+      rewrite decide_True by (by rewrite lookup_fmap, Hi; simpl; rewrite Hh).
+      rewrite <- fmap_delete.
+      rewrite decide_False.
+      2:{ intros Heq. assert (i ∈ dom (mhost <$> delete i s)) as Hin.
+          { rewrite Heq, dom_fmap_L. apply elem_of_dom; eauto. }
+          rewrite dom_fmap_L, dom_delete_L in Hin. set_solver. }
+      rewrite hids_fmap. unfold out_obs. cbn [omap list_omap last option_bind mbind].
+      rewrite ids_of_slice.
+      2:{ intros j y [_ H]%lookup_delete_Some. eauto. }
+      rewrite bool_decide_eq_false_2; [done|]. rewrite !elem_of_cons, elem_of_nil. naive_solver.
+Qed.
+
+Lemma prun_ch_obs hist s chs :
+  keyed s →
+  let os := (λ r, out_obs r.1 r.2) <$> prun_ch s hist chs in
+  hrun_driven (mhost <$> s) hist os = os.
+Proof.
+  revert s chs. induction hist as [|msg hist IH]; intros s chs Hk; [done|].
+  cbn [prun_ch fmap list_fmap hrun_driven hd_choice_of tail].
+  rewrite pstep_ch_obs by done. cbn [fst snd]. f_equal.
+  apply IH. by apply pstep_ch_keyed.
+Qed.
+
+(* the model driven by its own observations reproduces itself *)
+Lemma pstep_ch_driven ch s msg :
+  keyed s →
+  let r := pstep_ch ch s msg in
+  pstep_ch (choice_of (sids s) (out_obs r.1 r.2)) s msg = r.
+Proof.
+  intros Hk r. destruct msg as [m from|l|a]; [done|done|].
+  destruct (leave_ch_step ch s a Hk) as [[Hn Hr]|(i & m & Hi & Hh & Hr)]; subst r; rewrite Hr; cbn [fst snd].
+  - rewrite choice_of_unchanged. cbn [pstep_ch get_by_host_ch].
+    apply get_by_host_None in Hn. by rewrite Hn.
+  - rewrite choice_of_removed by (apply elem_of_dom; eauto). by apply (leave_ch_step_chosen s a i m).
+Qed.
+
+Lemma prun_ch_driven hist s chs :
+  keyed s →
+  let os := (λ r, out_obs r.1 r.2) <$> prun_ch s hist chs in
+  prun_driven s hist os = os.
+Proof.
+  revert s chs. induction hist as [|msg hist IH]; intros s chs Hk; [done|].
+  cbn [prun_ch fmap list_fmap prun_driven hd_choice_of tail].
+  rewrite pstep_ch_driven by done. f_equal.
+  apply IH. by apply pstep_ch_keyed.
+Qed.
+
+Theorem model_prun_ch_is_spec self hist chs :
+  spec_prun_driven self hist (model_prun_ch self hist chs) = model_prun_ch self hist chs.
+Proof.
+  unfold model_prun_ch, spec_prun_driven. cbn [tail].
+  assert (hinit self = mhost <$> pinit self) as ->.
+  { unfold hinit, pinit. by rewrite map_fmap_singleton. }
+  f_equal.
+  - unfold pstart, out_obs. cbn [fst snd omap list_omap last option_bind mbind].
+    rewrite hids_fmap, ids_of_slice by apply keyed_pinit.
+    rewrite bool_decide_eq_false_2; [done|]. rewrite !elem_of_cons, elem_of_nil. naive_solver.
+  - apply prun_ch_obs, keyed_pinit.
+Qed.
+
+Theorem model_prun_ch_driven self hist chs :
+  model_prun_driven self hist (model_prun_ch self hist chs) = model_prun_ch self hist chs.
+Proof.
+  unfold model_prun_ch, model_prun_driven. cbn [tail]. f_equal. apply prun_ch_driven, keyed_pinit.
+Qed.
+
+Theorem poracle_holds_of_model self hist chs :
+  poracle_on self hist (model_prun_ch self hist chs) = true.
+Proof.
+  unfold poracle_on. rewrite model_prun_ch_is_spec. apply all2_refl, pobs_eqb_refl.
+Qed.
+
+(* the canonical run is the run with no choices *)
+Lemma prun_ch_nil s hist : prun_ch s hist [] = prun s hist.
+Proof.
+  revert s. induction hist as [|msg hist IH]; intros s; [done|].
+  cbn [prun_ch prun hd_choice tail]. by rewrite pstep_ch_None, IH.
+Qed.
+Lemma model_prun_ch_nil self hist : model_prun_ch self hist [] = model_prun self hist.
+Proof. unfold model_prun_ch, model_prun. by rewrite prun_ch_nil. Qed.
+
+(* three members behind address 7; four reports: 3, 2, 1, 0, 0 left; the
+   agent is told three times; node 0 and node 4 untouched *)
+Example repeated_reports_example :
+  let self := mk 0 [] in
+  let q i := {| mid := i; mhost := 7; mkinds := [] |} in
+  let hist := [MembersMsg [q 1; q 2; mk 4 []]; Handshake (q 3) 7;
+               LeaveAddr 7; LeaveAddr 7; LeaveAddr 7; LeaveAddr 7] in
+  (length ∘ p_list <$> model_prun_ch self hist [None; None; Some 2; Some 3]) = [1; 4; 5; 4; 3; 2; 2] ∧
+  (length ∘ p_agent <$> model_prun_ch self hist [None; None; Some 2; Some 3]) = [1; 1; 1; 1; 1; 1; 0] ∧
+  last (p_list <$> model_prun_ch self hist [None; None; Some 2; Some 3]) = Some [0; 4].
+Proof. by vm_compute. Qed.
 
 (** * the pinned tree *)
 (* D10: nodes 0 (self) and 1; address 9 is reported unreachable: Receive
